@@ -334,7 +334,9 @@ func (l *WAL) replayPhysicRecord(fr *bufio.Reader, walFileName string, recordCom
 		writeWalType: writeWalType,
 	}
 	n, err = io.ReadFull(fr, recordCompBuff)
-	if err == nil || err == io.EOF {
+	// io.EOF means that not a single byte of the body is on disk: the record is torn,
+	// recordCompBuff still holds whatever was read into it before
+	if err == nil {
 		var innerErr error
 		binaryBuff, innerErr = snappy.Decode(binaryBuff, recordCompBuff)
 		if innerErr != nil {
